@@ -1,0 +1,142 @@
+//go:build verif
+
+// Verification hook (build tag `verif` only; with the tag off this file is not
+// part of the package and nothing changes).
+
+package compile
+
+import "sort"
+
+// Kinds passed to the order callback of CompileWithLinkOrder.
+const (
+	VerifOrderIncludes  = "includes"
+	VerifOrderTypes     = "types"
+	VerifOrderConstants = "constants"
+	VerifOrderServices  = "services"
+	// VerifOrderFunctionsPrefix + <service name> orders the functions of one
+	// service.
+	VerifOrderFunctionsPrefix = "functions:"
+)
+
+// CompileWithLinkOrder behaves like Compile, but every iteration over a map
+// that Compile performs in Go's random map order is performed in an order
+// chosen by the caller instead.
+//
+// Modules are visited breadth-first exactly like Module.Walk does, except that
+// the includes of a module are enqueued in the order order(path, "includes",
+// names) returns. For every visited module its types, then its constants, then
+// its services are pre-linked in the order the callback returns for the kinds
+// "types", "constants" and "services" (for a service, its functions are
+// pre-linked first, in the order returned for "functions:<service>"); after
+// that the module goes through the normal link pass, which then finds
+// everything already linked and only performs its remaining checks.
+//
+// The callback receives the sorted list of names; names it does not return are
+// visited afterwards in sorted order, names it invents are ignored. A nil
+// callback means sorted order.
+func CompileWithLinkOrder(path string, order func(modulePath, kind string, names []string) []string, opts ...Option) (*Module, error) {
+	c := newCompiler()
+	for _, opt := range opts {
+		opt(&c)
+	}
+
+	root, err := c.load(path)
+	if err != nil {
+		return nil, err
+	}
+
+	ordered := func(m *Module, kind string, names []string) []string {
+		sort.Strings(names)
+		if order == nil {
+			return names
+		}
+		known := make(map[string]bool, len(names))
+		for _, n := range names {
+			known[n] = true
+		}
+		out := make([]string, 0, len(names))
+		for _, n := range order(m.ThriftPath, kind, append([]string(nil), names...)) {
+			if known[n] {
+				known[n] = false
+				out = append(out, n)
+			}
+		}
+		for _, n := range names {
+			if known[n] {
+				out = append(out, n)
+			}
+		}
+		return out
+	}
+
+	prelink := func(m *Module) error {
+		names := make([]string, 0, len(m.Types))
+		for name := range m.Types {
+			names = append(names, name)
+		}
+		for _, name := range ordered(m, VerifOrderTypes, names) {
+			if _, err := m.Types[name].Link(m); err != nil {
+				return compileError{Target: name, Reason: err}
+			}
+		}
+
+		names = make([]string, 0, len(m.Constants))
+		for name := range m.Constants {
+			names = append(names, name)
+		}
+		for _, name := range ordered(m, VerifOrderConstants, names) {
+			if err := m.Constants[name].Link(m); err != nil {
+				return compileError{Target: name, Reason: err}
+			}
+		}
+
+		names = make([]string, 0, len(m.Services))
+		for name := range m.Services {
+			names = append(names, name)
+		}
+		for _, name := range ordered(m, VerifOrderServices, names) {
+			service := m.Services[name]
+			fnames := make([]string, 0, len(service.Functions))
+			for fname := range service.Functions {
+				fnames = append(fnames, fname)
+			}
+			for _, fname := range ordered(m, VerifOrderFunctionsPrefix+name, fnames) {
+				if err := service.Functions[fname].Link(m); err != nil {
+					return compileError{Target: name + "." + fname, Reason: err}
+				}
+			}
+			if err := service.Link(m); err != nil {
+				return compileError{Target: name, Reason: err}
+			}
+		}
+		return nil
+	}
+
+	// Same traversal as Module.Walk, with the includes in the caller's order.
+	visited := make(map[string]struct{})
+	toVisit := []*Module{root}
+	for len(toVisit) > 0 {
+		m := toVisit[0]
+		toVisit = toVisit[1:]
+		if _, ok := visited[m.ThriftPath]; ok {
+			continue
+		}
+		visited[m.ThriftPath] = struct{}{}
+
+		names := make([]string, 0, len(m.Includes))
+		for name := range m.Includes {
+			names = append(names, name)
+		}
+		for _, name := range ordered(m, VerifOrderIncludes, names) {
+			toVisit = append(toVisit, m.Includes[name].Module)
+		}
+
+		if err := prelink(m); err != nil {
+			return root, compileError{Target: m.ThriftPath, Reason: err}
+		}
+		if err := c.link(m); err != nil {
+			return root, compileError{Target: m.ThriftPath, Reason: err}
+		}
+	}
+	return root, nil
+}
